@@ -24,29 +24,6 @@ def match(name, line):
         return False
 
 
-import re
-
-@sig("C05-capture-with-place-marker")
-def _c05_marker(line):
-    """route language: the request target carries an encoded '%' followed by a digit or 'L', so a
-    decoded capture can contain a QString::arg place marker"""
-    glued = False
-    for t in tokens(line):
-        if t.startswith("redir:"):
-            tm = bytes.fromhex(t.split(":")[3]).decode("utf-16-be") if t.split(":")[3] != "-" else ""
-            # a marker glued to a literal '%' or to a following lower marker: a capture starting
-            # with a digit is read as part of a place marker by the next arg() call
-            if re.search(r"%%\d|%\d%\d", tm):
-                glued = True
-    for t in tokens(line):
-        if t.startswith("req:"):
-            raw = unhx(t.split(":")[1])
-            if re.search(rb"%25(?:[0-9L]|%3[0-9])?", raw) is not None:
-                return True
-            return glued and re.search(rb"/[0-9]", raw) is not None
-    return False
-
-
 @sig("C12-empty-header-name")
 def _c12_empty_name(line):
     """proxy language: some header line of the client's request head has an empty (or blank) name"""
